@@ -339,7 +339,7 @@ def main(argv=None):
 
     # 3. violations: minimise, attribute, replay-verify, report
     viol_runs = [results[i] for i in order if results[i]["violations"]]
-    min_cap = getattr(mod, "MINIMISE_CAP", 6)
+    min_cap = getattr(mod, "MINIMISE_CAP", 3 if args.tier == "quick" else 8)
     minimised = 0
     presumed_known = 0
     seen_sig = set()
